@@ -46,7 +46,7 @@ TAGS = {
     "op.end:add_mw": {"C07", "C13"},
     "op.end:task": {"C11"},
     "op.end:thunk": {"C11"},
-    "send.begin:D": {"C02", "C04", "C05", "C06", "C15", "C11"},
+    "send.begin:D": {"C01", "C02", "C04", "C05", "C06", "C15", "C11"},
     "send.full:D": {"C06", "C05", "C18"},
     "send.pop:D": {"C06", "C18", "C02"},
     "send.end:D": {"C05", "C06", "C02", "C04", "C18"},
@@ -90,7 +90,7 @@ TAGS = {
 # blocked operation -> properties that rely on it waiting
 PROBE_TAGS = {
     "send": {"C05", "C10", "C14", "C02"},
-    "op:dispatch": {"C02", "C04", "C05", "C06", "C18"},
+    "op:dispatch": {"C01", "C02", "C04", "C05", "C06", "C18"},
     "op:stop": {"C04", "C02"}, "op:close": {"C04", "C02"}, "op:drop_store": {"C15", "C04"},
     "join": {"C04", "C15", "C11", "C10"}, "stop.drain": {"C04", "C15", "C11"},
     "op:unsub": {"C09", "C10"}, "op:add_sub": {"C09", "C07"}, "op:subscribed": {"C10", "C09"}, "op:iter": {"C14"},
